@@ -99,6 +99,17 @@ def gen_cases(tier, seed):
                     break
             n = int(rng.choice([300, 1000]))
             cases.append({"fam": fam, "gen": p, "n": n, "c": 2.0 if edge == "small" else 0.5, "start": "generating" if edge == "small" else "perturbed", "prelude": False, "sub": int(rng.integers(1 << 31)), "cost": n / 500})
+    # data that legitimately contain zeros and negative values: a negative location (Weibull with the location fixed,
+    # as every shipped model does; normal, Gumbel, Rayleigh with the location free)
+    nrng = np.random.default_rng([seed, 12, 4])
+    LOC = {"weibull": ("gamma", "alpha"), "normal": ("mu", "sigma"), "gumbel_r": ("loc", "scale"), "rayleigh": ("loc", "scale")}
+    for fam, (loc, scale) in LOC.items():
+        if fam not in S.ALL_FAMS:
+            continue
+        for r in range(2 if tier == "quick" else 20):
+            p = _draw(nrng, fam)
+            p[loc] = -float(nrng.uniform(0.3, 1.0)) * float(p[scale])
+            cases.append({"fam": fam, "gen": p, "n": int(nrng.choice([400, 3000])), "c": 2.0, "start": ["default", "generating"][r % 2], "prelude": False, "fixed": [loc] if fam == "weibull" else [], "negative_location": True, "sub": int(nrng.integers(1 << 31)), "cost": 2})
     return cases
 
 
